@@ -324,8 +324,9 @@ func (e *Engine) load(st *State, p *Val, elem types.Type) (*Val, error) {
 	if err != nil {
 		return nil, err
 	}
-	// name the loaded value and record well-formedness
-	if len(v.T) > 60 {
+	// name the loaded value (always when the term mentions an allocation, so that escape tracking, which looks
+	// for allocation numerals in terms, is not confused by a mere index) and record well-formedness
+	if len(v.T) > 60 || strings.Contains(v.T, "(- ") {
 		n := st.fresh("ld", v.S)
 		st.pc = append(st.pc, eq(n, v.T))
 		v.T = n
@@ -723,6 +724,7 @@ func (e *Engine) simpleInstr(fr *Frame, st *State, instr ssa.Instruction) (*Val,
 		if v.Addr != nil && (v.Addr.Kind == "field" || v.Addr.Kind == "elem") {
 			return nil, fmt.Errorf("interior pointer %s stored to memory (outside subset)", in.Val.Name())
 		}
+		st.markEscaped(v.T)
 		return nil, e.store(st, p, in.Addr.Type().(*types.Pointer).Elem(), v)
 	case *ssa.Convert:
 		return e.convert(fr, st, in)
@@ -776,7 +778,9 @@ func (e *Engine) simpleInstr(fr *Frame, st *State, instr ssa.Instruction) (*Val,
 		r := &Val{T: st.fresh("closure", sFunc), S: sFunc, Typ: in.Type(), Fn: fn}
 		st.assume(not(eq(r.T, "nil_func")))
 		for _, b := range in.Bindings {
-			r.Bind = append(r.Bind, e.operand(fr, st, b))
+			bv := e.operand(fr, st, b)
+			st.markEscaped(bv.T)
+			r.Bind = append(r.Bind, bv)
 		}
 		return r, nil
 	case *ssa.MakeMap:
@@ -1191,7 +1195,9 @@ func (e *Engine) execFrom(fr *Frame, st *State, b *ssa.BasicBlock, idx int, k re
 		case *ssa.Return:
 			var rs []*Val
 			for _, r := range in.Results {
-				rs = append(rs, e.operand(fr, st, r))
+				rv := e.operand(fr, st, r)
+				st.markEscaped(rv.T)
+				rs = append(rs, rv)
 			}
 			k(st, rs)
 			return
@@ -1230,7 +1236,12 @@ func (e *Engine) execFrom(fr *Frame, st *State, b *ssa.BasicBlock, idx int, k re
 			}
 			var args []*Val
 			for _, a := range in.Call.Args {
-				args = append(args, e.operand(fr, st, a))
+				av := e.operand(fr, st, a)
+				st.markEscaped(av.T)
+				args = append(args, av)
+			}
+			if fnv != nil {
+				st.markEscaped(fnv.T)
 			}
 			first := true
 			e.doCall(fr, st, &in.Call, fnv, args, in.Pos(), func(st2 *State, res *Val) {
